@@ -29,6 +29,7 @@ type Fault struct {
 	Err   error
 	Short int  // Write: accept only len-Short bytes (with Err nil => short write without error)
 	Zero  bool // Write: accept 0 bytes, nil error
+	Block bool // Write: the peer does not drain; the call blocks until the connection is closed or its write deadline passes
 }
 
 // Call records one I/O call.
@@ -225,6 +226,21 @@ func (c *Conn) Write(p []byte) (int, error) {
 	f := c.fault("Write", c.WriteFaults)
 	if vsched.Active() {
 		vsched.Yield("io.write " + c.Name)
+	}
+	if f != nil && f.Block && vsched.Active() {
+		vsched.Do(&vsched.Op{Kind: "io.write.blocked", Obj: c.Name,
+			Enabled: func() bool { return c.Closed || (!c.wdl.IsZero() && !vsched.VNow().Before(c.wdl)) },
+			WakeAt: func() (int64, bool) {
+				if c.wdl.IsZero() {
+					return 0, false
+				}
+				return int64(c.wdl.Sub(vsched.Cur().Base)), true
+			}})
+		if !c.Closed && !c.wdl.IsZero() && !vsched.VNow().Before(c.wdl) {
+			err := c.OpErr("write", timeoutErr{})
+			c.log("Write", 0, err, p, f)
+			return 0, err
+		}
 	}
 	if c.Closed {
 		err := c.OpErr("write", net.ErrClosed)
